@@ -79,6 +79,12 @@ MapApply(kind, m0, o) ==
                {R(SelectSeq(m, LAMBDA s : s.k \in o.ks), 0 - 1),
                 R(SelectSeq(m, LAMBDA s : s.k \in o.ks \/ s.v = 0), 0 - 1)}
           [] o.op = "sort_values" -> {R(SortSlots(m), 0 - 1)}
+          \* the comparator sees entries only: the visible entries end up in key order, where the placeholders
+          \* go is the implementation's business (before the entries, among them by key, after them)
+          [] o.op = "sort_values_by_key" ->
+               LET vis == SortSlots(Visible(m))
+                   ph == SelectSeq(m, LAMBDA x : x.v = 0) IN
+               {R(ph \o vis, 0 - 1), R(SortSlots(m), 0 - 1), R(vis \o ph, 0 - 1)}
           \* sort_values_by with a comparator that looks at value mod 3 only: the sort is stable
           [] o.op = "sort_values_by_mod3" -> {R(StableSort3(m, TRUE), 0 - 1)}
           [] o.op = "clear" -> {R(<<>>, 0 - 1)}
